@@ -101,6 +101,13 @@ def run(rep, prop, tier, replay_name=None, only=None):
         rep.add_tlc("MC_TokenFS_resubmit_F23", res, "the reclaim as it was (no job lock): must violate RunningHoldFile")
         if not res.violation and not res.error:
             rep.machinery_failure("MC_TokenFS does not show the stale reclaim (F23)")
+        res = tlc.tlc("MC_TokenFS.tla", "MC_TokenFS_latestart_resub.cfg", timeout=2400)
+        rep.add_tlc("MC_TokenFS_latestart_resub", res, "one unit; the other scheduler starts at any moment (StartCount, StartWatch) while the first one's job ends, "
+                    "gives the token back and takes it again under the same file name; depth <= 30")
+        if res.violation:
+            rep.violation(f"{prop}/model/{res.violation[1]}", f"TLC: {res.violation} in MC_TokenFS_latestart_resub", {"tlc_tail": res.out[-2500:]})
+        elif res.error:
+            rep.machinery_failure(f"TLC failed on MC_TokenFS_latestart_resub: {res.error}")
         res = tlc.tlc("MC_TokenFS.tla", "MC_TokenFS_resubmit_F28.cfg", timeout=2400)
         rep.add_tlc("MC_TokenFS_resubmit_F28", res, "late deletion events handled as they were (the token held again is forgotten, then watched by a thread "
                     "of its own process, which the job lock does not stop): must violate RunningHoldFile")
@@ -126,6 +133,13 @@ def run(rep, prop, tier, replay_name=None, only=None):
                     rep.violation(f"{prop}/model/{res.violation[1]}", f"TLC: {res.violation} in MC_TokenFS_latestart", {"tlc_tail": res.out[-2500:]})
             elif res.error:
                 rep.machinery_failure(f"TLC failed on MC_TokenFS_latestart: {res.error}")
+            res = tlc.tlc("MC_TokenFS.tla", "MC_TokenFS_latestart3.cfg", timeout=2400)
+            rep.add_tlc("MC_TokenFS_latestart3", res, "the same with a third scheduler that only watches (its reclaim threads race with the newcomer's), depth <= 26")
+            if res.violation:
+                if res.violation[1] in INV_OF[prop]:
+                    rep.violation(f"{prop}/model/{res.violation[1]}", f"TLC: {res.violation} in MC_TokenFS_latestart3", {"tlc_tail": res.out[-2500:]})
+            elif res.error:
+                rep.machinery_failure(f"TLC failed on MC_TokenFS_latestart3: {res.error}")
             res = tlc.tlc("MC_TokenFS.tla", "MC_TokenFS_raced.cfg", timeout=2400)
             rep.add_tlc("MC_TokenFS_raced", res, "two jobs of one scheduler, one unit, the other scheduler only watches: every placement of its reclaim "
                         "between the owner's test and removal of the token file")
